@@ -147,7 +147,7 @@ def build() -> Check:
             if col_ev:
                 items = col_ev[-1].data["items"]
                 u = a.data["updates"]
-                want_u = "list[" + ",".join(f"{i}.update" for i in items) + "]"
+                want_u = "list[" + ",".join(f"{i}.update" for i in items if not i.endswith(".empty")) + "]"
                 if u != want_u:
                     upd.append((f"API call sends {u}, expected the batch's updates {want_u}", t))
             ka = a.data.get("kwargs", {})
